@@ -598,7 +598,17 @@ func (t *smallHuffCodeTable) genForDists(codes []huffCode, count []uint16, maxSy
 				tempCodeLength++
 			}
 		}
-		for x := longCodeLookupLength; x < longCodeLookupLength+2*(1<<(maxLength-distLookupBits)); x++ {
+		groupSize := uint32(1) << (maxLength - distLookupBits)
+		if longCodeLookupLength+groupSize > uint32(len(t.LongCodeLookup)) {
+			// The table has room for every complete code; only an incomplete
+			// one can ask for more. Its remaining long codes read as invalid.
+			for j := 0; j < int(tempCodeLength); j++ {
+				codes[tempCodeList[j]].SetCode(0xFFFF)
+			}
+			t.ShortCodeLookup[firstBits] = 0
+			continue
+		}
+		for x := longCodeLookupLength; x < longCodeLookupLength+groupSize; x++ {
 			t.LongCodeLookup[x] = 0
 		}
 
